@@ -11,10 +11,12 @@ for f in ['/verif/.work/mutfinal.txt']:
         tags = re.findall(r'violation tag: ([^;]+);', rest)
         rows[key] = (pid, int(rc), int(wall), sorted(set(t.strip() for t in tags)))
 out = ['# Seeded changes vs. the quick checks', '',
-       'Each change was produced by an independent sub-agent that saw only the property text (second wave: also a one-line description of the',
-       'change already tried for that property), was re-confirmed with `tools/confirm_mut.sh` / `tools/confirm_mut2.sh` (same 30 tests pass; the',
-       'demonstration exits 1 with and 0 without the change), and was then given to the property\'s quick check in its scratch worktree',
-       '(`tools/trymut.sh <worktree> <property>`, i.e. `VERIF_REPO=<worktree> ./check <property> quick`).  rc=1 means a reproduced VIOLATION.', '',
+       'Each change was produced by an independent sub-agent that saw only the property text and its own scratch worktree (later waves:',
+       'also one-line descriptions of the changes already tried for that property), was re-confirmed from its patch and demonstration alone',
+       'in a fresh worktree (`tools/confirm_patch.sh`: same 30 tests pass; the demonstration exits 1 with and 0 without the change), and was',
+       'then given to the quick check of its property in another fresh worktree (`tools/allmut.sh`: `VERIF_REPO=<worktree> ./check <property> quick`;',
+       '/repo itself is never modified).  rc=1 means a reproduced VIOLATION; rc=0 means the check of that property stayed silent',
+       '(C04g, C13g: the change makes the run hang, which the C05 and C07 checks report - DESIGN.md section 13, eighth wave).', '',
        '| change | property | what it is | needs | check result | violation tags reported |', '|---|---|---|---|---|---|']
 for key in sorted(rows, key=lambda k: (k[:3], k[3:])):
     pid, rc, wall, tags = rows[key]
